@@ -433,9 +433,8 @@ class RiscvParser(Parser):
                     address_counter += 1
                 elif line_parsed.type.type == "zero":
                     num_words = int(line_parsed.get("value"))
-                    self.variables.update(
-                        {line_parsed.get("name"): (address_counter, 4 * num_words)}
-                    )
+                    # name[i] addresses word i: the element size is one word, not the whole area
+                    self.variables.update({line_parsed.get("name"): (address_counter, 4)})
                     address_counter += 4 * num_words
 
     def _process_pseudo_instructions(self) -> None:
